@@ -406,82 +406,120 @@ def _root_.Xform.Extractor.WF (e : Extractor) : Prop :=
   (e.valid = none → if e.fromEnd then e.left ≠ [] else e.right ≠ []) ∧
   (∀ t, e.valid = some t → t.length = 256)
 
-theorem tableAt_ok (t : List Bool) (c : Nat) (ht : t.length = 256) (hc : c < 256) :
-    ∃ b, tableAt (some t) c = .ok b := by
-  have : c < t.length := by omega
-  exact ⟨t[c], by simp [tableAt, this]⟩
+theorem tableAt_ok (t : List Bool) (c : Nat) (ht : t.length = 256) :
+    ∃ b, tableAt (some t) c = .ok b := ⟨t.getD c false, by simp [tableAt, ht]⟩
 
-theorem matchFromStart_ok (t : List Bool) (ht : t.length = 256) (s : Bytes) (hs : IsBytes s) (i : Nat) :
+theorem matchFromStart_ok (t : List Bool) (ht : t.length = 256) (s : Bytes) (i : Nat) :
     ∃ n, matchFromStart (some t) s i = .ok n := by
   induction s generalizing i with
   | nil => exact ⟨i, rfl⟩
   | cons c r ih =>
-    obtain ⟨b, hb⟩ := tableAt_ok t c ht (hs c (by simp))
+    obtain ⟨b, hb⟩ := tableAt_ok t c ht
     simp only [matchFromStart, bind, Except.bind, hb]
     cases b
     · exact ⟨i, rfl⟩
-    · simpa using ih (fun x hx => hs x (by simp [hx])) (i + 1)
+    · simpa using ih (i + 1)
 
-theorem matchFromEnd_ok (t : List Bool) (ht : t.length = 256) (s : Bytes) (hs : IsBytes s) :
+theorem matchFromEnd_ok (t : List Bool) (ht : t.length = 256) (s : Bytes) :
     ∃ n, matchFromEnd (some t) s = .ok n := by
-  obtain ⟨n, hn⟩ := matchFromStart_ok t ht s.reverse (fun b hb => hs b (by simpa using hb)) 0
+  obtain ⟨n, hn⟩ := matchFromStart_ok t ht s.reverse 0
   exact ⟨s.length - n, by simp [matchFromEnd, bind, Except.bind, hn, pure, Except.pure]⟩
 
-theorem isBytes_of_stripLeft (e : Extractor) (text s : Bytes) (h : stripLeft e text = some s) (hb : IsBytes text) :
-    IsBytes s := by
-  have := stripLeft_some e text s h
-  intro b hbs
-  exact hb b (by rw [this]; simp [hbs])
-
 /-- **C15 / C07 (head extraction is total).** -/
-theorem C15_extract_head_total (e : Extractor) (text : Bytes) (hwf : e.WF) (hf : e.fromEnd = false)
-    (hb : IsBytes text) : ∃ o, extractStart e text = .ok o := by
+theorem C15_extract_head_total (e : Extractor) (text : Bytes) (hwf : e.WF) (hf : e.fromEnd = false) :
+    ∃ o, extractStart e text = .ok o := by
   obtain ⟨w1, w2⟩ := hwf
   unfold extractStart
   cases hsl : stripLeft e text with
   | none => exact ⟨none, rfl⟩
   | some s =>
-    have hsb := isBytes_of_stripLeft e text s hsl hb
     cases hv : e.valid with
     | none =>
       have hr : e.right ≠ [] := by have := w1 hv; simpa [hf] using this
-      simp only [bind, Except.bind, pure, Except.pure, hr, ne_eq, not_false_eq_true, if_true, hv, Option.isSome_none]
+      simp only [bind, Except.bind, pure, Except.pure, hr, ne_eq, not_false_eq_true, if_true, Option.isSome_none]
       cases s <;> (cases headSearch e _ <;> exact ⟨_, rfl⟩)
     | some t =>
       have ht := w2 t hv
-      simp only [bind, Except.bind, pure, Except.pure, hv, Option.isSome_some, if_true]
-      have hfirst : ∀ c, c < 256 → ∃ b, tableAt (some t) c = .ok b := fun c hc => tableAt_ok t c ht hc
-      have hm : ∀ (x : Bytes), IsBytes x → ∃ n, matchFromStart (some t) x 0 = .ok n :=
-        fun x hx => matchFromStart_ok t ht x hx 0
+      simp only [bind, Except.bind, pure, Except.pure, Option.isSome_some, if_true]
+      have hm : ∀ (x : Bytes), ∃ n, matchFromStart (some t) x 0 = .ok n := fun x => matchFromStart_ok t ht x 0
       cases s with
       | nil =>
         simp only []
         by_cases hr : e.right = []
-        · obtain ⟨n, hn⟩ := hm [] (by intro b hb; simp at hb)
+        · obtain ⟨n, hn⟩ := hm []
           simp only [hr, ne_eq, not_true_eq_false, if_false, hn]
           split <;> exact ⟨_, rfl⟩
         · simp only [hr, ne_eq, not_false_eq_true, if_true]
           cases hh : headSearch e [] with
           | none => exact ⟨_, rfl⟩
           | some i =>
-            obtain ⟨n, hn⟩ := hm (([] : Bytes).take i) (by intro b hb; simp at hb)
+            obtain ⟨n, hn⟩ := hm (([] : Bytes).take i)
             simp only [hn]
             split <;> exact ⟨_, rfl⟩
       | cons c r =>
-        obtain ⟨b, hb1⟩ := hfirst c (hsb c (by simp))
+        obtain ⟨b, hb1⟩ := tableAt_ok t c ht
         simp only [hb1]
         cases b
         · exact ⟨_, rfl⟩
         · simp only [Bool.not_true, Bool.false_eq_true, if_false]
           by_cases hr : e.right = []
-          · obtain ⟨n, hn⟩ := hm (c :: r) hsb
+          · obtain ⟨n, hn⟩ := hm (c :: r)
             simp only [hr, ne_eq, not_true_eq_false, if_false, hn]
             split <;> exact ⟨_, rfl⟩
           · simp only [hr, ne_eq, not_false_eq_true, if_true]
             cases hh : headSearch e (c :: r) with
             | none => exact ⟨_, rfl⟩
             | some i =>
-              obtain ⟨n, hn⟩ := hm ((c :: r).take i) (fun x hx => hsb x (List.mem_of_mem_take hx))
+              obtain ⟨n, hn⟩ := hm ((c :: r).take i)
+              simp only [hn]
+              split <;> exact ⟨_, rfl⟩
+
+/-- **C15 / C07 (tail extraction is total).** -/
+theorem C15_extract_tail_total (e : Extractor) (text : Bytes) (hwf : e.WF) (hf : e.fromEnd = true) :
+    ∃ o, extractEnd e text = .ok o := by
+  obtain ⟨w1, w2⟩ := hwf
+  unfold extractEnd
+  cases hsl : stripRight e text with
+  | none => exact ⟨none, rfl⟩
+  | some s =>
+    cases hv : e.valid with
+    | none =>
+      have hl : e.left ≠ [] := by have := w1 hv; simpa [hf] using this
+      simp only [bind, Except.bind, pure, Except.pure, hl, ne_eq, not_false_eq_true, if_true, Option.isSome_none]
+      cases s.getLast? <;> (cases tailSearch e _ <;> exact ⟨_, rfl⟩)
+    | some t =>
+      have ht := w2 t hv
+      simp only [bind, Except.bind, pure, Except.pure, Option.isSome_some, if_true]
+      have hm : ∀ (x : Bytes), ∃ n, matchFromEnd (some t) x = .ok n := fun x => matchFromEnd_ok t ht x
+      cases hg : s.getLast? with
+      | none =>
+        simp only []
+        by_cases hl : e.left = []
+        · obtain ⟨n, hn⟩ := hm s
+          simp only [hl, ne_eq, not_true_eq_false, if_false, hn]
+          split <;> exact ⟨_, rfl⟩
+        · simp only [hl, ne_eq, not_false_eq_true, if_true]
+          cases hh : tailSearch e s with
+          | none => exact ⟨_, rfl⟩
+          | some i =>
+            obtain ⟨n, hn⟩ := hm (s.drop (i + e.left.length))
+            simp only [hn]
+            split <;> exact ⟨_, rfl⟩
+      | some c =>
+        obtain ⟨b, hb1⟩ := tableAt_ok t c ht
+        simp only [hb1]
+        cases b
+        · exact ⟨_, rfl⟩
+        · simp only [Bool.not_true, Bool.false_eq_true, if_false]
+          by_cases hl : e.left = []
+          · obtain ⟨n, hn⟩ := hm s
+            simp only [hl, ne_eq, not_true_eq_false, if_false, hn]
+            split <;> exact ⟨_, rfl⟩
+          · simp only [hl, ne_eq, not_false_eq_true, if_true]
+            cases hh : tailSearch e s with
+            | none => exact ⟨_, rfl⟩
+            | some i =>
+              obtain ⟨n, hn⟩ := hm (s.drop (i + e.left.length))
               simp only [hn]
               split <;> exact ⟨_, rfl⟩
 
